@@ -45,6 +45,8 @@ def _mc_jobs(quick: bool) -> list:
         ("UltrasonicMC", us % (8, "VIEW View\n"), "UltrasonicMC exhaustive (clock abstracted by VIEW): <= 8 echoes over {timeout,1,580,29999}us x "
          "gaps {0,10,59,60,61,200}ms x clock {0,1000}; 7 invariants + 1 action property", ["Call", "Guard", "Trigger", "Echo", "Return", "Fallback"]),
         ("UltrasonicMC", us % (4 if quick else 8, ""), f"UltrasonicMC exhaustive on concrete clock values, <= {4 if quick else 8} echoes, same grids", []),
+        ("ButtonSharedMC", "ButtonSharedMC.cfg", "ButtonSharedMC exhaustive: 3 buttons sharing one handler, every signal of 4 passes; handler runs = rising edges",
+         ["Pass"]),
         ("PotMC", "SPECIFICATION Spec\nCONSTANTS\n  Adcs <- AdcsDef\n  Pins <- PinsDef\n  MaxCalls = %d\n" % (3 if quick else 5)
          + inv(["TypeOK", "FreshReadPerCall", "AtMostOneReadPerCall"]) + "PROPERTY ReturnsTheRead\nCHECK_DEADLOCK FALSE\n",
          "PotMC exhaustive: ADC sequences over {0,1,511,512,1022,1023} x 4 pins", ["Call", "Sample", "Read"]),
@@ -167,6 +169,30 @@ def plan_button(cases: Cases, uniform: list, free: list, quick: bool, rnd: rando
             n += 1
 
 
+def plan_shared(cases: Cases, behs: list, quick: bool, rnd: random.Random) -> list:
+    """Three buttons with ONE handler: signals from the TLC-generated behaviours, including trios in which two or three
+    buttons carry the same signal (their rising edges fall into the same pass).  -> host reference traces"""
+    key = cases.shape("button/shared", FI.button_shape("shared"))
+    meta = cases.shapes[key]
+    sigs = sorted({tuple(b["sig"]) for b in behs if len(b["sig"]) >= 4 and b["sig"][0] == 0}, key=lambda t: (len(t), t))
+    groups: dict = {}
+    for sg in sigs:
+        groups.setdefault(len(sg), []).append(list(sg))
+    hosts, n = [], 0
+    for ln, ss in sorted(groups.items()):
+        rnd.shuffle(ss)
+        trios = []
+        for j in range(0, len(ss) - 2, 3):
+            a, b, c = ss[j:j + 3]
+            trios += [[a, b, c], [a, a, b], [a, b, b], [a, a, a]]
+        for trio in trios[: (24 if quick else 400)]:
+            passes, inputs = FI.button_inputs(meta, trio)
+            cases.add(key, passes, inputs, [{"comp": "shared", "id": f"fw-shared-{n}", "pins": [5, 6, 9]}], {"sigs": trio})
+            hosts.append({"id": f"host-shared-{n}", "side": "host", "ev": FI.host_shared(trio)})
+            n += 1
+    return hosts
+
+
 def plan_probes(cases: Cases) -> None:
     """Probe stratum: minimal stimuli that meet exactly one known trigger each (run on every invocation)."""
     key = cases.shape("button/xhandler", FI.button_shape("xhandler"))
@@ -224,6 +250,11 @@ def plan_us(cases: Cases, behs: list, quick: bool, rnd: random.Random) -> None:
         key = cases.shape("us/" + meta["shape"], meta)
         passes, inputs = FI.us_inputs(cases.shapes[key], b)
         cases.add(key, passes, inputs, [{"comp": "us", "id": f"us-{n}", "i": 0, "trig": 8, "echo": 9, "t0": b["t0"]}], b)
+        if b["t0"] == FI.ROLLOVER_T0 and n % 3 == 0:
+            # the same schedule with the millisecond counter rolling over K ms into the run (the guard must be roll-over safe)
+            k_ms = 3 + (n * 37) % 260
+            ro = "".join(ln + "\n" for ln in inputs.splitlines() if not ln.startswith("t ")) + f"t -{k_ms}\n"
+            cases.add(key, passes, ro, [{"comp": "us", "id": f"us-{n}-rollover", "i": 0, "trig": 8, "echo": 9, "t0": FI.ROLLOVER_T0}], dict(b, rollover_after_ms=k_ms))
     key = cases.shape("us/two", FI.us_two_shape())
     flat = [b for b in behs if not b["setup"] and not b["inpass"] and len(b["calls"]) >= 2]
     rnd.shuffle(flat)
@@ -243,16 +274,18 @@ def project(dev: dict, events: list, inputs: str) -> dict:
                 "ev": FI.project_button(events, dev["i"], dev["pin"], dev["hc"])}
     if dev["comp"] == "pot":
         return {"id": dev["id"], "pin": dev["pin"], "ev": FI.project_pot(events, dev["i"])}
+    if dev["comp"] == "shared":
+        return {"id": dev["id"], "side": "fw", "ev": FI.project_shared(events, dev["pins"])}
     return {"id": dev["id"], "t0": dev["t0"], "ev": FI.project_us(events, inputs, dev["i"], dev["trig"], dev["echo"])}
 
 
-MODS = {"button": "ButtonTrace", "pot": "PotTrace", "us": "UltrasonicTrace"}
+MODS = {"button": "ButtonTrace", "pot": "PotTrace", "us": "UltrasonicTrace", "shared": "ButtonSharedTrace"}
 
 
 def execute(cases: Cases, run) -> tuple:
     """Build every shape once, run every case, project.  -> ({comp: [trace]}, {trace id: (case, dev)})"""
     built = FI.build_all(cases.shapes)
-    traces: dict = {"button": [], "pot": [], "us": []}
+    traces: dict = {"button": [], "pot": [], "us": [], "shared": []}
     where: dict = {}
     bad_shapes = {k: b for k, b in built.items() if b["status"] != "ok"}
     for k, b in bad_shapes.items():
@@ -289,7 +322,8 @@ def judge(cases: Cases, traces: dict, where: dict, run, hosts: list) -> None:
             with lock:
                 run.traces(n)
 
-    batches = [(comp, ts + hosts if comp == "button" else ts) for comp, ts in traces.items()]
+    batches = [(comp, ts + [h for h in hosts if h["id"].startswith("host-shared-") == (comp == "shared")] if comp in ("button", "shared") else ts)
+               for comp, ts in traces.items()]
     with cf.ThreadPoolExecutor(max_workers=3) as ex:
         futs = [ex.submit(validate, MODS[comp], MODS[comp] + ".cfg", ts, Locked(), f"{comp} traces", 4000, 4) for comp, ts in batches if ts]
         for f in futs:
@@ -391,11 +425,12 @@ def check(run) -> None:
         cases = Cases()
         plan_button(cases, uniform, free, quick, rnd)
         plan_probes(cases)
+        shared_hosts = plan_shared(cases, uniform + free, quick, rnd)
         plan_pot(cases, pots, quick, rnd)
         plan_us(cases, us + walks, quick, rnd)
         traces, where = execute(cases, run)
         sigs = sorted({tuple(b["sig"]) for b in uniform + free})
-        hosts = host_traces([list(s) for s in sigs])
+        hosts = host_traces([list(s) for s in sigs]) + shared_hosts
         for t in hosts:
             run.count(t["id"])
         judge(cases, traces, where, run, hosts)
